@@ -11,6 +11,7 @@ CONSTANTS
   AppName <- AppNameMC
   AppVersion <- AppVersionMC
   Starts <- StartsMC
+  RegOffer <- RegNone
   EnvGet <- EnvMC
   Obs <- ObsEmit
 CONSTRAINT StoreBound
